@@ -125,6 +125,8 @@ pub struct ImageSpec {
     pub refcount_last: bool,
     /// header l1_size lists only as many entries as are needed for the last mapped cluster
     pub short_l1: bool,
+    /// version 3 header_length (104 = no compression-type byte, as written by old qemu; > 112 = unknown additional fields, zero); 0 = 112
+    pub header_length: u32,
     /// number of free host clusters left between consecutive allocations
     pub gap: usize,
     /// backing file name stored in the header
@@ -159,6 +161,7 @@ impl ImageSpec {
             tag_base: 0xB0_0000,
             refcount_last: false,
             short_l1: false,
+            header_length: 0,
             gap: 0,
             backing_name: None,
             extensions: false,
@@ -446,7 +449,7 @@ pub fn build_image(spec: &ImageSpec) -> Built {
     }
 
     // ----- header -----
-    let hlen: usize = if spec.version == 2 { 72 } else { 112 };
+    let hlen: usize = if spec.version == 2 { 72 } else if spec.header_length != 0 { spec.header_length as usize } else { 112 };
     put32(&mut bytes, 0, MAGIC);
     put32(&mut bytes, 4, spec.version);
     put32(&mut bytes, 20, cb);
@@ -464,7 +467,9 @@ pub fn build_image(spec: &ImageSpec) -> Built {
         put64(&mut bytes, 88, 0);
         put32(&mut bytes, 96, spec.refcount_order);
         put32(&mut bytes, 100, hlen as u32);
-        bytes[104] = 0;
+        if hlen > 104 {
+            bytes[104] = 0;
+        }
     }
     let mut eo = hlen;
     if spec.extensions {
